@@ -52,5 +52,33 @@ Definition ops_C01 : list opdef := [
      op_spec := fun_spec (fun a => match a with
        | [ws; i] => match as_zs ws, as_z i with
            | Some ws, Some i => vpairZ (spec_Rank ws i) | _, _ => VBad end
+       | _ => VBad end) |};
+  (* "held" variants: the Go side builds decoy indexes between building and querying; the result must
+     be the same (the extra last argument, the decoy bitmap, is ignored here) *)
+  {| op_name := "bitmap.Rank64/held";
+     op_run := fun a => match a with
+       | [ws; tr; i; _] => match as_zs ws, as_bool tr, as_z i with
+           | Some ws, Some tr, Some i =>
+               if in_range ws i then
+                 match Rank64 ws (IndexRank64 ws tr) i with Some p => vpairZ p | None => VPanic end
+               else VBad
+           | _, _, _ => VBad end
+       | _ => VBad end;
+     op_spec := fun_spec (fun a => match a with
+       | [ws; tr; i; _] => match as_zs ws, as_z i with
+           | Some ws, Some i => vpairZ (spec_Rank ws i) | _, _ => VBad end
+       | _ => VBad end) |};
+  {| op_name := "bitmap.Rank128/held";
+     op_run := fun a => match a with
+       | [ws; i; _] => match as_zs ws, as_z i with
+           | Some ws, Some i =>
+               if in_range ws i then
+                 match Rank128 ws (IndexRank128 ws) i with Some p => vpairZ p | None => VPanic end
+               else VBad
+           | _, _ => VBad end
+       | _ => VBad end;
+     op_spec := fun_spec (fun a => match a with
+       | [ws; i; _] => match as_zs ws, as_z i with
+           | Some ws, Some i => vpairZ (spec_Rank ws i) | _, _ => VBad end
        | _ => VBad end) |}
 ].
